@@ -587,4 +587,88 @@ Proof.
       rewrite Et. unfold keys, cntnot. cbn [map filter length Z.of_nat]. lia.
   - intros _ _. apply cntnot_nonneg.
 Qed.
+
+(* ---- one agenda step ---- *)
+Lemma nexp_cons st st' x : l_slog st' = x :: l_slog st -> nexp st' = ((if is_expire (sl_ev x) then 1 else 0) + nexp st)%nat.
+Proof. intros E. unfold nexp. rewrite E. cbn [filter]. destruct (is_expire (sl_ev x)); reflexivity. Qed.
+
+Lemma nexp_same st st' : l_slog st' = l_slog st -> nexp st' = nexp st.
+Proof. intros E. unfold nexp. rewrite E. reflexivity. Qed.
+
+(* EVERY AGENDA STEP KEEPS Total; EVERY TIMER EXPIRY LOWERS IT BY ONE *)
+Lemma Total_step st a rest st' :
+  Good st -> Good st' -> l_agenda st = a :: rest -> Tr lc st a rest st' ->
+  last_ack (l_snd st) <= last_ack (l_snd st') ->
+  Total st' + Z.of_nat (nexp st') <= Total st + Z.of_nat (nexp st).
+Proof.
+  intros G G' E HT Hla.
+  (* counters *)
+  assert (Cn : (l_n1 st <= l_n1 st')%nat /\ (l_n2 st <= l_n2 st')%nat /\ (nexp st' <= S (nexp st))%nat).
+  { destruct HT as [e isack s' o nw kp k nwa Hev Hstep Ho Hnow Hsnd Hsink Hn2 Hslog Hn1 Hwd Hif HA' Hkp Hkeep Hpkt
+                   | id r Hev Hfind Hk Hwd Hwa HA' | Hev Hk Hwd Hwa Hag | Hev Hk Hwa Hwd HA' | Hev Hk Hwd Hwa HA'
+                   | id tm ct Hev Hp Hq Hk Hwd Hwa HA' | ackno pid tm ct Hev Hq Hk Hwd Hwa HA'
+                   | id tm ct Hev Hp Hnow Hsnd Hpkt Hn1 Hslog Hsink Hn2 Hwd Hif];
+      try (destruct Hk as [k1 k2 k3 k4 k5 k6 k7]; unfold popped in *; lproj; rewrite (nexp_same _ _ k7); lia).
+    - rewrite (nexp_cons _ _ _ Hslog). destruct (is_expire _); lia.
+    - rewrite (nexp_same _ _ Hslog). lia. }
+  destruct Cn as (Cn1 & Cn2 & Cne).
+  pose proof (dropsAfter_mono _ _ (lc_drop_data lc) Cn1) as D1. pose proof (dropsAfter_mono _ _ (lc_drop_ack lc) Cn2) as D2.
+  assert (Hdr : dropsRem st' <= dropsRem st) by (unfold dropsRem; lia).
+  destruct (Z_lt_ge_dec (last_ack (l_snd st)) (last_ack (l_snd st'))) as [Hnew|Hsame].
+  { pose proof (Total_phase st st' Hm G G' Hla Hdr (or_introl Hnew)). lia. }
+  destruct (Z_lt_ge_dec (dropsRem st') (dropsRem st)) as [Hdrop|Hnodrop].
+  { pose proof (Total_phase st st' Hm G G' Hla Hdr (or_intror Hdrop)). lia. }
+  assert (HX : last_ack (l_snd st') = last_ack (l_snd st)) by lia.
+  assert (E1 : dropsAfter (l_n1 st') (lc_drop_data lc) = dropsAfter (l_n1 st) (lc_drop_data lc)) by (unfold dropsRem in *; lia).
+  assert (E2 : dropsAfter (l_n2 st') (lc_drop_ack lc) = dropsAfter (l_n2 st) (lc_drop_ack lc)) by (unfold dropsRem in *; lia).
+  assert (Ed : dropsRem st' = dropsRem st) by (unfold dropsRem; rewrite E1, E2; reflexivity).
+  assert (Hnd : droppedA lc (l_n2 st) = false \/ l_n2 st' = l_n2 st).
+  { destruct (Nat.eq_dec (l_n2 st') (l_n2 st)) as [En|En]; [right; exact En|left].
+    destruct (droppedA lc (l_n2 st)) eqn:Edr; [|reflexivity]. exfalso.
+    pose proof (dropsAfter_S _ _ Edr). pose proof (dropsAfter_mono (S (l_n2 st)) (l_n2 st') (lc_drop_ack lc) ltac:(lia)). lia. }
+  assert (Goal2 : Psi st' + Z.of_nat (nexp st') <= Psi st + Z.of_nat (nexp st)); [|unfold Total; rewrite HX, Ed; lia].
+  assert (Quiet : l_snd st' = l_snd st -> l_slog st' = l_slog st ->
+                  (forall e, ~ ev_sender lc st (ae_time a) (ae_ev a) e true) ->
+                  (forall i, In i (keys (timers (l_snd st))) -> ae_ev a <> ATimerFire i) ->
+                  Psi st' + Z.of_nat (nexp st') <= Psi st + Z.of_nat (nexp st)).
+  { intros Es El Hns Hnf. rewrite (nexp_same _ _ El). pose proof (Psi_step_quiet st a rest st' G G' E HT Es Hnd Hns Hnf). lia. }
+  pose proof HT as HT0.
+  destruct HT as [e isack s' o nw kp k nwa Hev Hstep Ho Hnow Hsnd Hsink Hn2 Hslog Hn1 Hwd Hif HA' Hkp Hkeep Hpkt
+                 | id r Hev Hfind Hk Hwd Hwa HA' | Hev Hk Hwd Hwa Hag | Hev Hk Hwa Hwd HA' | Hev Hk Hwd Hwa HA'
+                 | id tm ct Hev Hp Hq Hk Hwd Hwa HA' | ackno pid tm ct Hev Hq Hk Hwd Hwa HA'
+                 | id tm ct Hev Hp Hnow Hsnd Hpkt Hn1 Hslog Hsink Hn2 Hwd Hif].
+  - (* sender *)
+    rewrite (nexp_cons _ _ _ Hslog). cbn [sl_ev].
+    assert (Hkp2 : kp = tx_ids o).
+    { destruct (oeff_nodrop lc _ _ _ _ _ _ Ho) as [Hlt|Hk2]; [|exact Hk2]. exfalso. rewrite <- Hn1 in Hlt. lia. }
+    assert (HXs : last_ack s' = last_ack (l_snd st)) by (rewrite Hsnd in HX; exact HX).
+    inversion Hev as [Ea Ee Ei|Ea Ee Ei|id Hht Ea Ee Ei|k0 p tm ct Hq Ea Ee Ei|k0 p tm ct Ea Ee Ei]; subst e isack; cbn [is_expire].
+    + pose proof (Psi_wake st a rest st' s' o G G' E HT0 (eq_sym Ea) Hstep Hsnd Hn2). lia.
+    + pose proof (Psi_cb st a rest st' s' o G G' E HT0 (eq_sym Ea) Hstep Hsnd Hn2). lia.
+    + pose proof (Psi_expire st a rest st' id s' o nw kp k _ G G' E HT0 (eq_sym Ea) Hht Hstep Ho Hkp2 Hsnd Hnow Hn2 Hwd HA'
+                  ltac:(intros n Hin; apply in_or_app; left; apply in_or_app; left; exact Hin)). lia.
+    + pose proof (Psi_dupack st a rest st' _ _ _ _ s' o nw kp k G G' E HT0 Hev Hstep HXs Ho Hkp2 Hsnd Hn2 Hwd). lia.
+    + pose proof (Psi_dupack st a rest st' _ _ _ _ s' o nw kp k G G' E HT0 Hev Hstep HXs Ho Hkp2 Hsnd Hn2 Hwd). lia.
+  - destruct Hk as [k1 k2 k3 k4 k5 k6 k7]. unfold popped in *; lproj. apply Quiet; auto.
+    + intros e He. rewrite Hev in He. inversion He.
+    + intros i _. rewrite Hev. discriminate.
+  - destruct Hk as [k1 k2 k3 k4 k5 k6 k7]. unfold popped in *; lproj. apply Quiet; auto.
+    + intros e He. destruct (ae_ev a) as [| | | | |[]| | | |]; try contradiction; inversion He; subst; congruence.
+    + intros i Hi Ea. rewrite Ea in Hev. apply has_timer_In in Hi. congruence.
+  - destruct Hk as [k1 k2 k3 k4 k5 k6 k7]. unfold popped in *; lproj. apply Quiet; auto.
+    + intros e He. destruct Hev as [Ea|[Ea _]]; rewrite Ea in He; inversion He.
+    + intros i _. destruct Hev as [Ea|[Ea _]]; rewrite Ea; discriminate.
+  - destruct Hk as [k1 k2 k3 k4 k5 k6 k7]. unfold popped in *; lproj. apply Quiet; auto.
+    + intros e He. destruct Hev as [Ea|[Ea _]]; rewrite Ea in He; inversion He.
+    + intros i _. destruct Hev as [Ea|[Ea _]]; rewrite Ea; discriminate.
+  - destruct Hk as [k1 k2 k3 k4 k5 k6 k7]. unfold popped in *; lproj. apply Quiet; auto.
+    + intros e He. rewrite Hev in He. inversion He.
+    + intros i _. rewrite Hev. discriminate.
+  - destruct Hk as [k1 k2 k3 k4 k5 k6 k7]. unfold popped in *; lproj. apply Quiet; auto.
+    + intros e He. rewrite Hev in He. inversion He; subst. congruence.
+    + intros i _. rewrite Hev. discriminate.
+  - apply Quiet; auto.
+    + intros e He. destruct Hev as [Ea|[Ea _]]; rewrite Ea in He; inversion He.
+    + intros i _. destruct Hev as [Ea|[Ea _]]; rewrite Ea; discriminate.
+Qed.
 End Pot3.
